@@ -226,6 +226,9 @@ def evaluate(kind, case, acc):
             got = spec.compatibility([py], [abi], ["any"])
             acc.oracle_evaluations += 1
             g3 = None if got is None else tuple(got[:3])
+            gw = spec.wheel_compatibility(f"x-1-{py}-{abi}-any.whl")  # the file-name entry point is a twin
+            if gw != got:
+                acc.fail(kind, "wheel_compatibility-differs-from-compatibility", {**case, "abis": [abi]}, expected=got, got=gw)
             if not adm.universal and not adm.empty and _near_bound(rp, py):
                 acc.nontrivial_exhaustive += 1
             if g3 != exp:
